@@ -797,7 +797,24 @@ class Extractor:
                     hit = k
                     break
             if hit is None:
-                raise Undecided('lost anchor: `%s %s %s` in %s' % (L, op, R, where))
+                # the same operands joined by ANOTHER operator of the table (a changed operator): desugar that one, the
+                # postcondition then decides (rustc's desugaring does not depend on which operator it is)
+                alt = None
+                for op2 in self.OPS:
+                    if op2 == op:
+                        continue
+                    seq2 = [t.text for t in lex(L)] + [op2] + [t.text for t in lex(R)]
+                    for k in range(len(toks) - len(seq2) + 1):
+                        if [t.text for t in toks[k:k + len(seq2)]] == seq2:
+                            alt = (op2, k)
+                            break
+                    if alt:
+                        break
+                if alt is None:
+                    raise Undecided('lost anchor: `%s %s %s` in %s' % (L, op, R, where))
+                op, hit = alt
+                seq = [t.text for t in lex(L)] + [op] + [t.text for t in lex(R)]
+                drops.append('A7 %s: the operator between `%s` and `%s` is now `%s`; desugared as such' % (where, L, R, op))
             tr, meth, lvl = self.OPS[op]
             prev = toks[hit - 1] if hit > 0 else None
             nxt = toks[hit + len(seq)] if hit + len(seq) < len(toks) else None
